@@ -1,5 +1,5 @@
 import Driver.Proto
-import Model.Geom
+import Model.GeomExt
 open Proto Geom
 
 /-! Model driver of C18.  Numbers on the wire: Go `int` as decimal, `float64` as the exact rational `n/d` (or `n`). -/
@@ -84,6 +84,12 @@ def contour? (ws : List String) : Option (Contour Rat) := (ws.mapM parseRat?).bi
 def contourStr (c : Contour Rat) : String := " ".intercalate (c.map (ptStr ratStr))
 def polyStr (p : Polygon Rat) : String := " | ".intercalate (p.map contourStr)
 
+/-- `Clone`: the harness reports `same` (operand untouched, no shared storage), whether the polygon and each contour
+    came back as `nil` (Go's `Clone` returns nil for length 0), and the values -/
+def cloneStr (p : Polygon Rat) : String :=
+  "same " ++ (if p.isEmpty then "nil" else "len" ++ toString p.length) ++ " " ++
+    String.ofList (p.map (fun c => if c.isEmpty then 'n' else 'v')) ++ ": " ++ polyStr p
+
 /-- `poly <op> <head numbers> | contour | contour …` -/
 def polyOp (op : String) (ws : List String) : String :=
   match splitBar ws with
@@ -96,14 +102,56 @@ def polyOp (op : String) (ws : List String) : String :=
         | [c] => boolStr (Contour.contains c ⟨px, py⟩)
         | _ => "bad-op"
       | "cbounds", [] => match p with
-        | [c] => rectStr ratStr (Contour.bounds c)
+        | [c] => rectStr ratStr (Contour.boundsSrc maxFloat64 (-maxFloat64) (fun _ _ => 0) c)
         | _ => "bad-op"
       | "pcontains", [px, py] => boolStr (Polygon.contains p ⟨px, py⟩)
       | "pevenodd", [px, py] => boolStr (Polygon.containsEvenOdd p ⟨px, py⟩)
-      | "pbounds", [] => rectStr ratStr (Polygon.bounds p)
+      | "pbounds", [] => rectStr ratStr (Polygon.boundsSrc maxFloat64 (-maxFloat64) (fun _ _ => 0) p)
+      | "pempty", [] => boolStr (Polygon.empty p)
+      | "pclone", [] => cloneStr (Polygon.clone p)
+      | "cclone", [] => match p with
+        | [c] => cloneStr [Contour.clone c]
+        | _ => "bad-op"
       | "ptransform", [a, b, c, d, e, f] => "same " ++ polyStr (Polygon.transform p ⟨a, b, c, d, e, f⟩)
       | _, _ => "bad-op"
     | _, _ => "bad-op"
+
+/-- the Point / Size / Rect arithmetic, shared by both coordinate types; `dv` answers `none` where Go panics (integer
+    division by zero) and `inf` prints a float quotient by zero -/
+def arithOp {α : Type} [Add α] [Sub α] [Mul α] [Neg α] [LE α] [LT α] [Max α] [Min α] [OfNat α 0] [OfNat α 1]
+    [DecidableLE α] [DecidableLT α] [DecidableEq α]
+    (dv : α → α → α) (dz : α → α → String) (half fl cl : α → α) (f : α → String) (op : String) (v : List α) : String :=
+  let ps := ptStr f
+  let ss := fun (s : Size α) => f s.w ++ " " ++ f s.h
+  match op, v with
+  | "padd", [a, b, c, d] => ps (Point.add ⟨a, b⟩ ⟨c, d⟩)
+  | "psub", [a, b, c, d] => ps (Point.sub ⟨a, b⟩ ⟨c, d⟩)
+  | "pmul", [a, b, c] => ps (Point.mul ⟨a, b⟩ c)
+  | "pdiv", [a, b, c] => if c = 0 then dz a b else ps (Point.divBy dv ⟨a, b⟩ c)
+  | "pneg", [a, b] => ps (Point.neg ⟨a, b⟩)
+  | "pdot", [a, b, c, d] => f (Point.dot ⟨a, b⟩ ⟨c, d⟩)
+  | "pcross", [a, b, c, d] => f (Point.cross ⟨a, b⟩ ⟨c, d⟩)
+  | "pfloor", [a, b] => ps (Point.mapBoth fl ⟨a, b⟩)
+  | "pceil", [a, b] => ps (Point.mapBoth cl ⟨a, b⟩)
+  | "peqw", [a, b, c, d, t] => boolStr (Point.equalWithin ⟨a, b⟩ ⟨c, d⟩ t)
+  | "sadd", [a, b, c, d] => ss (Size.add ⟨a, b⟩ ⟨c, d⟩)
+  | "ssub", [a, b, c, d] => ss (Size.sub ⟨a, b⟩ ⟨c, d⟩)
+  | "smul", [a, b, c] => ss (Size.mul ⟨a, b⟩ c)
+  | "sdiv", [a, b, c] => if c = 0 then dz a b else ss (Size.divBy dv ⟨a, b⟩ c)
+  | "sfloor", [a, b] => ss (Size.mapBoth fl ⟨a, b⟩)
+  | "sceil", [a, b] => ss (Size.mapBoth cl ⟨a, b⟩)
+  | "smin", [a, b, c, d] => ss (Size.min ⟨a, b⟩ ⟨c, d⟩)
+  | "smax", [a, b, c, d] => ss (Size.max ⟨a, b⟩ ⟨c, d⟩)
+  | "shint", [a, b, c, d] => ss (Size.constrainForHint ⟨a, b⟩ ⟨c, d⟩)
+  | "rcenter", [a, b, c, d] => ps (Rect.center half ⟨a, b, c, d⟩)
+  | "ralign", [a, b, c, d] => rectStr f (Rect.align fl cl ⟨a, b, c, d⟩)
+  | _, _ => "bad-op"
+
+/-- IEEE quotient of an exact value by zero, as the harness prints it -/
+def ratDivZero (a : Rat) : String := if a > 0 then "+inf" else if a < 0 then "-inf" else "nan"
+
+/-- `ConvertPoint` / `ConvertSize` / `ConvertRect` between `int` and `float64`: Go's conversion truncates towards zero -/
+def truncRat (q : Rat) : Int := Int.tdiv q.num q.den
 
 def step (_ : Unit) (line : String) : Unit × String :=
   let out :=
@@ -112,9 +160,29 @@ def step (_ : Unit) (line : String) : Unit × String :=
       match ws.mapM String.toInt? with
       | some v => rectOp halfInt (fun (i : Int) => toString i) op v
       | none => "bad-op"
+    | "rw" :: op :: ws =>  -- Go int as it is: Int64 with wrap-around (inputs that overflow included)
+      match ws.mapM String.toInt? with
+      | some v => rectOp (fun (a : Int64) => a / 2) (fun (i : Int64) => toString i.toInt) op (v.map Int64.ofInt)
+      | none => "bad-op"
     | "rf" :: op :: ws =>
       match ws.mapM parseRat? with
       | some v => rectOp halfRat ratStr op v
+      | none => "bad-op"
+    | "ai" :: op :: ws =>
+      match ws.mapM String.toInt? with
+      | some v => arithOp divInt (fun _ _ => "panic") halfInt id id (fun (i : Int) => toString i) op v
+      | none => "bad-op"
+    | "af" :: op :: ws =>
+      match ws.mapM parseRat? with
+      | some v => arithOp divRat (fun a b => ratDivZero a ++ " " ++ ratDivZero b) halfRat floorRat ceilRat ratStr op v
+      | none => "bad-op"
+    | "cfi" :: _ :: ws =>
+      match ws.mapM parseRat? with
+      | some v => " ".intercalate (v.map (fun q => toString (truncRat q)))
+      | none => "bad-op"
+    | "cif" :: _ :: ws =>
+      match ws.mapM String.toInt? with
+      | some v => " ".intercalate (v.map (fun (i : Int) => ratStr (i : Rat)))
       | none => "bad-op"
     | "m" :: op :: ws =>
       match ws.mapM parseRat? with
